@@ -466,8 +466,8 @@ def run(ctx):
     ctx.map(nest_shard, jobs)
     names = sorted(REPEAT)
     ctx.map(repeat_shard, [(names[i::6], ctx.quick) for i in range(6)])
-    ctx.map(triple_shard, [(s, ctx.pick(15, 300), ctx.quick) for s in ctx.shard_seeds(16)])
-    ctx.map(big_shard, BIG)
+    ctx.map(triple_shard, [(s, ctx.pick(8, 300), ctx.quick) for s in ctx.shard_seeds(16)])
+    ctx.map(big_shard, BIG[:7] if ctx.quick else BIG)
     lnames = sorted(LEX_FAMILIES)
     # timing is measured with few processes at a time to keep the machine quiet
     ctx.map(lex_shard, [lnames[i::4] for i in range(4)])
